@@ -13,9 +13,12 @@ import vlib
 PID = "C11"
 DEFS = ("mpt_loop=drv_mpt_loop", "mpt_notify_wait=hk_notify_wait", "mpt_notify_next=hk_notify_next")
 CFG = {
-    "quick":    dict(mcs=["MC_Notify.cfg"], gens=["Gen_Notify.cfg"], dump=False, nhist=24, steps=50),
-    "thorough": dict(mcs=["MC_Notify_t.cfg", "MC_Notify_t3.cfg"], gens=["Gen_Notify_t.cfg"], dump=True, nhist=300, steps=120),
+    "quick":    dict(mcs=["MC_Notify.cfg"], gens=["Gen_Notify.cfg"], dump=False, poll_gen=None, poll_every=4,
+                     nhist=24, steps=50),
+    "thorough": dict(mcs=["MC_Notify_t.cfg", "MC_Notify_t3.cfg"], gens=["Gen_Notify_t.cfg"], dump=True,
+                     poll_gen="Gen_Notify_p.cfg", poll_every=1, nhist=300, steps=120),
 }
+POLL_SRC = tuple("mptio/notify/notify_%s.c" % n for n in ("add", "wait", "next", "fini", "bind", "connect"))
 ENV = {"ASAN_OPTIONS": vlib.ASAN_ENV + ":symbolize=0"}
 CHUNK = 6000
 MAX_FAULTS = 60
@@ -34,6 +37,12 @@ def enabled():
 def build():
     return vlib.build_driver("notify", ["notify.c"], libs=("mptio", "mptcore"), defines=DEFS,
                              repo_sources=("mptio/notify/loop.c",))
+
+
+def build_poll():
+    """the notifier's portable poll() path: epoll_create1 renamed to a function of the driver that fails"""
+    return vlib.build_driver("notify_poll", ["notify.c"], libs=("mptio", "mptcore"),
+                             defines=("DRV_POLL", "epoll_create1=drv_epoll_create1"), repo_sources=POLL_SRC)
 
 
 def match(exp, obs, step=None, rec=None, prev=None):
@@ -60,10 +69,13 @@ def kinds_of(beh, upto):
     return "".join(ks) or "-"
 
 
+MODE = [""]      # "" = epoll (the library as built), "poll:" = the portable poll() path
+
+
 def signature(step, why, beh=None, i=0):
     a = step["a"]
     key = why.lower() if why in ("Crash", "Hang", "Garbled", "Missing") else why.split(":")[0].split(" ")[0]
-    return "x:notify:%s:%s:%s" % (a, key, kinds_of(beh, i) if beh else "-")
+    return "x:notify:%s%s:%s:%s" % (MODE[0], a, key, kinds_of(beh, i) if beh else "-")
 
 
 def run_chunks(exe, behs):
@@ -127,7 +139,8 @@ def validate(ck, events, what, behs, binding):
                 sig = "x:notify:trace:" + signature(ev, "rejected" + ("-in-loop" if "sub" in ev else ""), beh, ev["i"])[9:]
             ck.violation(sig, {"binding": binding, "matched_prefix": matched, "rejected_event": ev,
                                "previous_event": events[matched - 1] if matched else None,
-                               "behaviour": beh, "tlc": (tres2.violation or ""), "part": "x11_notify"})
+                               "behaviour": beh, "tlc": (tres2.violation or ""), "part": "x11_notify",
+                               "poll": bool(MODE[0])})
             bad = ev
         else:
             ok, matched = ok2, matched2
@@ -145,7 +158,7 @@ def defer(ck, behs, recs, mms):
         per_sig[sig] = per_sig.get(sig, 0) + 1
         if per_sig[sig] <= 2:
             ck.violation(sig, {"binding": "A(replay)", "behaviour": behs[mm["b"]], "step": mm["i"], "why": mm["why"],
-                               "record": mm["rec"], "part": "x11_notify"})
+                               "record": mm["rec"], "part": "x11_notify", "poll": bool(MODE[0])})
     accepted = 0
     todo = soft[:MAX_DEFER]
     while todo:
@@ -234,9 +247,40 @@ def gen_histories(ck, n, steps):
             beh.append({"a": "attach", "arg": {"x": 0}})
             attached = True
             table_ops(rng.randrange(1, 5))
+        kinds = {}
         for _ in range(rng.randrange(2, 7)):
             nin += 1
-            beh.append({"a": "add", "arg": {"k": rng.choice("hhsssccf"), "tok": nin}})
+            kinds[nin] = rng.choice("hhsssccf")
+            beh.append({"a": "add", "arg": {"k": kinds[nin], "tok": nin}})
+        if hno % 2 == 0:
+            # a burst on a fresh library input that fills what it reads in one go (4 messages, 64 bytes on the wire), then the loop
+            cand = [i for i in kinds if kinds[i] != "h"]
+            if cand:
+                i = rng.choice(cand)
+                n = 12 if kinds[i] == "c" else 14
+                for k in range(4):
+                    beh.append({"a": "send", "arg": {"i": i, "data": [rng.choice(ids), i, k] + [rng.randrange(1, 256) for _ in range(n - 3)]}})
+                beh.append({"a": "loop", "arg": {"rs": [0, 0, 1, 0, 0, 0], "rvs": [1] * nin}})
+        if hno % 4 == 1:
+            # traffic in installments on a fresh socket-pair input: more than it reads in one go, a wait, more, then the loop
+            cand = [i for i in kinds if kinds[i] == "s"]
+            if cand:
+                i = rng.choice(cand)
+                for n in (4, 43, 3, 3, 3, 43, 8):
+                    beh.append({"a": "send", "arg": {"i": i, "data": [rng.choice(ids), i] + [rng.randrange(256) for _ in range(n - 2)]}})
+                beh.append({"a": "wait", "arg": {"what": -1, "rvs": [1] * nin}})
+                for n in (3, 43, 3, 4):
+                    beh.append({"a": "send", "arg": {"i": i, "data": [rng.choice(ids), i] + [rng.randrange(256) for _ in range(n - 2)]}})
+                beh.append({"a": "loop", "arg": {"rs": [0] * 12, "rvs": [1] * nin}})
+        if hno % 4 == 2:
+            # a listener accepts a connection (the slot table grows) while another input is ready in the same wait
+            nin += 1
+            listener = nin
+            beh.append({"a": "add", "arg": {"k": "l", "tok": nin}})
+            beh.append({"a": "conn", "arg": {"i": listener}})
+            beh.append({"a": "send", "arg": {"i": 1, "data": message(1)}})
+            beh.append({"a": "wait", "arg": {"what": -1, "rvs": [1] * nin}})
+            extra = 1
         for _ in range(steps):
             live = [i for i in range(1, nin + extra + 1) if i not in shut and i != listener]
             op = rng.choice(["send", "send", "send", "send", "shut", "wait", "wait", "next", "dispatch", "dispatch",
@@ -376,6 +420,27 @@ def run_part(ck, tier):
     notes["of_these_accepted_by_tlc"] = accepted
     notes["replay_mismatch_kinds"] = kinds
 
+    # 2b. the same for the notifier's portable poll() path (waits for POLLIN only: there the two paths mean the same)
+    expoll = build_poll()
+    if cfg["poll_gen"]:
+        gen = vlib.tlc("Gen_Notify", cfg["poll_gen"], workers=1, tag="Gen_Notify_p")
+        if gen.error or gen.violation:
+            raise vlib.MachineryError("behaviour export failed (%s): %s %s" % (cfg["poll_gen"], gen.error, gen.violation))
+        pbehs = vlib.parse_behaviours(gen.out)
+    else:
+        pbehs = [b for b in behs if all("exp" in st for st in b)][::cfg["poll_every"]]
+    MODE[0] = "poll:"
+    try:
+        precs, pdone = run_chunks(expoll, pbehs)
+        pmms = vlib.compare(pbehs[:pdone], precs, match)
+        paccepted, psoft, pkinds = defer(ck, pbehs, precs, pmms)
+    finally:
+        MODE[0] = ""
+    ck.cov["evaluations"] += pdone
+    notes["poll_path"] = {"replayed_behaviours": pdone, "replay_differences_handed_to_tlc": psoft,
+                          "of_these_accepted_by_tlc": paccepted, "replay_mismatch_kinds": pkinds}
+    mark("poll_path")
+
     # 3. binding B: seeded histories (fine-grained calls and runs of the real mpt_loop) validated by TLC
     hist = gen_histories(ck, cfg["nhist"], cfg["steps"])
     recs2, _ = vlib.run_driver(exe, vlib.to_script(hist), env=ENV, timeout=1200)
@@ -411,7 +476,7 @@ def replay(det, path="-"):
     if not beh:
         print(json.dumps(det, indent=1)[:4000])
         return 2
-    exe = build()
+    exe = build_poll() if det.get("poll") else build()
     recs, err = vlib.run_driver(exe, vlib.to_script([beh]), env=ENV)
     events = flatten([beh], recs)
     ok, matched, _ = vlib.validate_trace("Trace_Notify", events, tag="Trace_Notify_replay")
